@@ -119,6 +119,14 @@ impl Clone for RoundingMode {
     fn clone(&self) -> (ret: Self) ensures ret == *self { *self }
 }
 impl Copy for RoundingMode {}
+impl Clone for NonDigitRoundingData {
+    fn clone(&self) -> (ret: Self) ensures ret == *self { *self }
+}
+impl Copy for NonDigitRoundingData {}
+impl Clone for InsigData {
+    fn clone(&self) -> (ret: Self) ensures ret == *self { *self }
+}
+impl Copy for InsigData {}
 impl Eq for BigDecimal {}
 impl<'a> Eq for BigDecimalRef<'a> {}
 
@@ -329,3 +337,12 @@ pub proof fn lemma_inverse_mirror(i: int, s: int, p: u64, m: RoundingMode, ai: i
     let z = inv_mag_spec(iabs(i), s, p, if i < 0 { m } else { mirror_mode(m) }).0;
     assert(isgn(-i) * z == -(isgn(i) * z)) by (nonlinear_arith) requires isgn(-i) == -isgn(i);
 }
+
+/// when does the "all further digits are zero" flag influence rounding (RoundingMode::needs_trailing_zeros)
+pub open spec fn needs_tz(mode: RoundingMode, d: u8) -> bool {
+    if mode == RoundingMode::HalfUp || mode == RoundingMode::HalfDown || mode == RoundingMode::HalfEven { d == 5 } else { d == 0 }
+}
+pub proof fn lemma_tz_irrelevant(mode: RoundingMode, sign: Sign, l: u8, d: u8, tz: bool)
+    requires !needs_tz(mode, d), l <= 9, d <= 9
+    ensures round_pair_spec(mode, sign, l, d, tz) == round_pair_spec(mode, sign, l, d, false)
+{}
